@@ -132,13 +132,23 @@ func checkLedger(own, tier string) int {
 	if nh > 0 && own == "C03" {
 		plain = tierN(tier, 2, 8)
 	}
-	parallel(nh+drained+plain, 8, func(i int) {
+	// ... and histories in which most registered validators are not active (two seats, seven registered) while
+	// proposals are funded, voted on and finalised: what is split among validators is split among those paid
+	crowded := 0
+	if nh > 0 {
+		crowded = tierN(tier, 1, 6)
+	}
+	parallel(nh+drained+plain+crowded, 8, func(i int) {
 		hseed := seed*1000 + int64(i)
 		fr := int64(1)
 		if i%3 == 1 && i < nh {
 			fr = 0
 		}
 		params := world.Params{Frankenstein: fr, NumCandidates: 3, NumEthUsers: 3, TopValidators: 5, ChainID: fmt.Sprintf("OneLedger-%s-%d", strings.ToLower(own), hseed)}
+		if i >= nh+drained+plain {
+			// (no fork block: it would force a top count of 64)
+			params.TopValidators, params.Frankenstein = 2, 0
+		}
 		w0, _ := world.New(params)
 		lm := newLedgerMonitor(r, own, w0, hseed)
 		cfg := drive.Cfg{Tag: strings.ToLower(own), Seed: hseed, Blocks: blocks, Params: params, Scripts: allScripts, Scout: true, Jumps: true, Absents: true, Honest: true}
@@ -147,9 +157,13 @@ func checkLedger(own, tier string) int {
 			cfg.Scripts = []string{"delegation-drain", "transfers", "valrewards"}
 			cfg.Jumps = i%2 == 1
 		}
-		if i >= nh+drained {
+		if i >= nh+drained && i < nh+drained+plain {
 			cfg.Scripts = []string{"olvm-mixed"}
 			cfg.Stray, cfg.Jumps, cfg.Absents = true, false, false
+		}
+		if i >= nh+drained+plain {
+			cfg.Scripts = []string{"governance", "staking", "transfers"}
+			cfg.Jumps, cfg.Absents = false, false
 		}
 		cfg.OnBlock = func(run *hist.Runner, blk *hist.Block) bool {
 			changed := len(blk.Txs) > 0
@@ -160,7 +174,7 @@ func checkLedger(own, tier string) int {
 					r.Count("ok:"+t.Kind, 1)
 				}
 			}
-			if i >= nh+drained {
+			if i >= nh+drained && i < nh+drained+plain {
 				for _, f := range mon.SimpleBlock(blk) {
 					if f.Prop == "COUNT" {
 						r.Count("plain-transfer-blocks-accounted-exactly", 1)
